@@ -137,6 +137,77 @@ def SortedMap.del (m : SortedMap) (key : Prefix) : Option SortedMap :=
     if i + 1 ≤ m.keys.length then some ⟨m.vals.del key, m.keys.take i ++ m.keys.drop (i + 1)⟩
     else none
 
+/-! ### SetIDs: strings to typed identifiers
+
+`Persistent.SetIDs` (persistent.go): every string is tried as an address
+(`netip.ParseAddr`), then as a CIDR (`netip.ParsePrefix`), then as a MAC
+(`net.ParseMAC`), then validated as a ClientID and lower-cased; afterwards the
+four lists are sorted.  What the three parsers make of a string travels with
+it; the ORDER of the attempts, the label check, the lower-casing and the
+sorting are the model's. -/
+
+/-- One identifier string with the parsers' verdicts. -/
+structure IDString where
+  raw : Bytes
+  asIP : Option IP
+  asPrefix : Option Prefix
+  asMAC : Option MAC
+
+inductive SetErr where
+  /-- "clientid is empty" -/
+  | empty
+  /-- `ValidateClientID` failed -/
+  | badClientID
+  deriving DecidableEq, Repr
+
+/-- `netip.Addr.Compare` < 0: family (zero, IPv4, IPv6), then value, then zone. -/
+def ipLt : IP → IP → Bool
+  | .invalid, .invalid => false
+  | .invalid, _ => true
+  | .v4 _, .invalid => false
+  | .v4 a, .v4 b => decide (a < b)
+  | .v4 _, .v6 _ _ => true
+  | .v6 a za, .v6 b zb => decide (a < b) || (a == b && compare za zb == .lt)
+  | .v6 _ _, _ => false
+
+/-- Insert into a list kept in `lt` order (what sorting does, one element at a time). -/
+def insertSorted {α : Type} (lt : α → α → Bool) (x : α) : List α → List α
+  | [] => [x]
+  | y :: rest => if lt x y then x :: y :: rest else y :: insertSorted lt x rest
+
+def sortBy {α : Type} (lt : α → α → Bool) (l : List α) : List α := l.foldr (insertSorted lt) []
+
+/-- `setID` -/
+def setID (c : Client) (id : IDString) : Except SetErr Client :=
+  if id.raw = [] then .error .empty
+  else match id.asIP with
+    | some ip => .ok { c with ips := c.ips ++ [ip] }
+    | none => match id.asPrefix with
+      | some p => .ok { c with subnets := c.subnets ++ [p] }
+      | none => match id.asMAC with
+        | some m => .ok { c with macs := c.macs ++ [m] }
+        | none =>
+          if C16.validLabel id.raw then .ok { c with cids := c.cids ++ [Bytes.lower id.raw] }
+          else .error .badClientID
+
+/-- The loop of `SetIDs` (it stops at the first bad string, before sorting). -/
+def setIDsLoop (c : Client) : List IDString → Except SetErr Client
+  | [] => .ok c
+  | id :: rest => match setID c id with
+    | .ok c' => setIDsLoop c' rest
+    | .error e => .error e
+
+/-- `Persistent.SetIDs` -/
+def setIDs (c : Client) (ids : List IDString) : Except SetErr Client :=
+  match setIDsLoop c ids with
+  | .error e => .error e
+  | .ok c =>
+    .ok { c with
+      ips := sortBy ipLt c.ips
+      subnets := sortBy (fun x y => subnetCompare x y == .lt) c.subnets
+      macs := sortBy (fun x y => compare x y == .lt) c.macs
+      cids := sortBy (fun x y => compare x y == .lt) c.cids }
+
 /-! ### index -/
 
 structure Index where
